@@ -109,6 +109,8 @@ package consensus
 //@   ensures @era types.b256(result) == (cheight(s) < s.Network.HardforkV2.FinalCutHeight ? types.b256(s.ChildTarget) : (W256 - 1) / wval(s.Difficulty))
 
 //@ func ValidateHeader
+//@   pure
+//@   prop C09
 //@   prop C13 C08
 //@   requires s.Network != nil && s.Network.HardforkASIC.NonceFactor >= 1
 //@   requires cheight(s) >= s.Network.HardforkV2.FinalCutHeight ==> wval(s.Difficulty) != 0
@@ -214,6 +216,8 @@ package consensus
 //@ spec rec sumSCParents(ms MidState, ts V1TransactionSupplement, ins []types.SiacoinInput, n int) int = n <= 0 ? 0 : sumSCParents(ms, ts, ins, n-1) + types.u128(ms.siacoinElement(ts, ins[n-1].ParentID).0.SiacoinOutput.Value)
 
 //@ func validateSiacoins
+//@   pure
+//@   prop C09
 //@   abstract
 //@   prop C08 C02 C03 C01 C10
 //@   requires ms.base.Network != nil
@@ -343,6 +347,8 @@ package consensus
 //@ spec rec sumSFParents(ms MidState, ts V1TransactionSupplement, ins []types.SiafundInput, n int) int = n <= 0 ? 0 : sumSFParents(ms, ts, ins, n-1) + ms.siafundElement(ts, ins[n-1].ParentID).0.SiafundOutput.Value
 
 //@ func validateSiafunds
+//@   pure
+//@   prop C09
 //@   abstract
 //@   prop C08 C02 C03 C01 C10
 //@   requires ms.base.Network != nil
@@ -362,6 +368,8 @@ package consensus
 //@   ensures @B2-count-preserved result == nil ==> sumSFParents(*ms, ts, txn.SiafundInputs, len(txn.SiafundInputs)) == sumSFO(txn.SiafundOutputs, len(txn.SiafundOutputs))
 
 //@ func validateMinimumValues
+//@   pure
+//@   prop C09
 //@   abstract
 //@   prop C01 C10
 //@   ghost k int
@@ -383,6 +391,8 @@ package consensus
 //@ spec v1Total(txn types.Transaction) int = sumSCO(txn.SiacoinOutputs, len(txn.SiacoinOutputs)) + sumFCAll(txn.FileContracts, len(txn.FileContracts)) + sumRevAll(txn.FileContractRevisions, len(txn.FileContractRevisions))
 
 //@ func validateCurrencyOverflow
+//@   pure
+//@   prop C09
 //@   abstract
 //@   prop C10 C01
 //@   ghost k int
@@ -426,6 +436,8 @@ package consensus
 //@ spec v1fcSumsOK(fc types.FileContract) bool = (forall j in 0..len(fc.ValidProofOutputs)+1 :: sumSCO(fc.ValidProofOutputs, j) < types.M128) && (forall j in 0..len(fc.MissedProofOutputs)+1 :: sumSCO(fc.MissedProofOutputs, j) < types.M128)
 
 //@ func validateFileContracts
+//@   pure
+//@   prop C09
 //@   abstract
 //@   prop C07 C08 C02 C03 C01 C10
 //@   requires ms.base.Network != nil && msWF(*ms)
@@ -484,6 +496,8 @@ package consensus
 //@ spec ephSC(ms MidState, sci types.V2SiacoinInput) bool = has(ms.elements, sci.Parent.ID) && ms.elements[sci.Parent.ID] < len(ms.sces) && ms.sces[ms.elements[sci.Parent.ID]].Created && (cheight(ms.base) >= ms.base.Network.HardforkV2.EphemeralOutputHeight ==> sci.Parent.ID == ms.sces[ms.elements[sci.Parent.ID]].SiacoinElement.ID && sci.Parent.SiacoinOutput == ms.sces[ms.elements[sci.Parent.ID]].SiacoinElement.SiacoinOutput && sci.Parent.MaturityHeight == ms.sces[ms.elements[sci.Parent.ID]].SiacoinElement.MaturityHeight)
 
 //@ func validateV2Siacoins
+//@   pure
+//@   prop C09
 //@   abstract
 //@   requires @decoded-txn-has-resolutions forall j in 0..len(txn.FileContractResolutions) :: !isnil(txn.FileContractResolutions[j].Resolution)
 //@   prop C08 C02 C03 C01 C04 C10
@@ -523,6 +537,8 @@ package consensus
 //@ spec ephSF(ms MidState, sfi types.V2SiafundInput) bool = has(ms.elements, sfi.Parent.ID) && ms.elements[sfi.Parent.ID] < len(ms.sfes) && ms.sfes[ms.elements[sfi.Parent.ID]].Created && cheight(ms.base) < ms.base.Network.HardforkV2.EphemeralOutputHeight
 
 //@ func validateV2Siafunds
+//@   pure
+//@   prop C09
 //@   abstract
 //@   requires @decoded-txn-has-resolutions forall j in 0..len(txn.FileContractResolutions) :: !isnil(txn.FileContractResolutions[j].Resolution)
 //@   prop C08 C02 C03 C01 C04 C10
@@ -546,6 +562,8 @@ package consensus
 //@   ensures @B7-count-preserved result == nil ==> sumV2SFParents(txn.SiafundInputs, len(txn.SiafundInputs)) == sumSFO(txn.SiafundOutputs, len(txn.SiafundOutputs))
 
 //@ func validateAttestations
+//@   pure
+//@   prop C09
 //@   abstract
 //@   prop C03 C10
 //@   ghost k int
@@ -553,6 +571,8 @@ package consensus
 //@   ensures @AT-signed result == nil && 0 <= k && k < len(txn.Attestations) ==> len(txn.Attestations[k].Key) != 0 && txn.Attestations[k].PublicKey.VerifyHash(ms.base.AttestationSigHash(txn.Attestations[k]), txn.Attestations[k].Signature)
 
 //@ func validateFoundationUpdate
+//@   pure
+//@   prop C09
 //@   abstract
 //@   prop C03 C10
 //@   invariant loop#1 @none-yet forall j in 0..$n :: txn.SiacoinInputs[j].Parent.SiacoinOutput.Address != ms.base.FoundationManagementAddress
@@ -570,6 +590,8 @@ package consensus
 //@ spec parentOK(ms MidState, fce types.V2FileContractElement) bool = !has(ms.spends, fce.ID) && ms.base.Elements.containsUnresolvedV2FileContractElement(fce.Share())
 
 //@ func validateV2FileContracts
+//@   pure
+//@   prop C09
 //@   abstract
 //@   prop C07 C08 C02 C03 C04 C10
 //@   requires ms.base.Network != nil && msWF(*ms)
@@ -616,6 +638,8 @@ package consensus
 //@   ensures @schedule types.u128(result) == ((types.u128(s.Network.InitialCoinbase) < sub || types.u128(s.Network.InitialCoinbase) - sub < types.u128(s.Network.MinimumCoinbase)) ? types.u128(s.Network.MinimumCoinbase) : types.u128(s.Network.InitialCoinbase) - sub)
 
 //@ func validateMinerPayouts
+//@   pure
+//@   prop C09
 //@   prop C01 C10
 //@   requires s.Network != nil
 //@   ghost k int
@@ -797,6 +821,8 @@ package consensus
 //@   abstract
 
 //@ func ValidateV2Transaction
+//@   pure
+//@   prop C09
 //@   prop C10 C01 C08
 //@   requires ms.base.Network != nil && msWF(*ms)
 //@   requires @sizes len(txn.SiacoinInputs) < NB && len(txn.SiafundInputs) < NB && len(txn.SiafundOutputs) < NB
@@ -808,6 +834,8 @@ package consensus
 //@   ensures @weight result == nil ==> ms.base.V2TransactionWeight(txn) != 0 && ms.base.V2TransactionWeight(txn) <= ms.base.MaxBlockWeight()
 
 //@ func ValidateTransaction
+//@   pure
+//@   prop C09
 //@   prop C10 C01 C08
 //@   requires ms.base.Network != nil && msWF(*ms)
 //@   requires @sizes len(txn.SiacoinInputs) < NB && len(txn.SiafundInputs) < NB && len(txn.SiafundOutputs) < NB
